@@ -37,6 +37,12 @@ def featuresAnswer (flag : Option String) : String :=
   | .ok fs => "ok " ++ ",".intercalate (Gen.featureNames fs) ++ " emits=" ++ (if Gen.emits fs then "t" else "f")
   | .error _ => "err"
 
+/-- `ok <names> emits=<b>` ↦ `ok emits=<b>` (what a plugin response shows) -/
+def emitsOnly (a : String) : String :=
+  match a.splitOn " " with
+  | ["ok", _, e] => "ok " ++ e
+  | _ => a
+
 def msgindexAnswer (forest fullname : String) : String :=
   match Gen.parseTops forest with
   | none => "bad-tree"
@@ -126,6 +132,11 @@ def step (st : St) (line : String) : St × String :=
   | ["param", p] =>
     (st, match Gen.parseParameter p with
          | .ok flag => featuresAnswer flag
+         | .error _ => "err")
+  | ["paramq"] => (st, emitsOnly (featuresAnswer none))
+  | ["paramq", p] =>
+    (st, match Gen.parseParameter p with
+         | .ok flag => emitsOnly (featuresAnswer flag)
          | .error _ => "err")
   | ["goname", n] => (st, Gen.goFieldName n)
   | ["msgindex", forest, fullname] => (st, msgindexAnswer forest fullname)
